@@ -53,6 +53,22 @@ def main():
     sel = sys.argv[1:]
     here = os.path.dirname(os.path.abspath(__file__))
     jobs = []
+    if "--seeded" in sel:
+        # the independently seeded changes kept under /verif/seeded (those recorded as caught) are must-fail patches too
+        sel = [s for s in sel if s != "--seeded"]
+        import json
+        for meta in sorted(glob.glob("/verif/seeded/*/meta.json")):
+            m = json.load(open(meta))
+            if not m.get("caught"):
+                continue
+            src = os.path.join(os.path.dirname(meta), "patch.diff")
+            props = "+".join(sorted(k for k, v in m["checks_run"].items() if v.get("exit") == 1)) or m["property"]
+            dst = os.path.join(tempfile.gettempdir(), "%s__seed_%s.diff" % (props, m["name"].split("__", 1)[-1]))
+            shutil.copy(src, dst)
+            if sel and not any(s in dst for s in sel):
+                continue
+            jobs.append((dst, True))
+        sel = sel or ["\0none"]  # with --seeded alone, run only the seeded patches
     for kind, expect in (("mustfail", True), ("mustpass", False)):
         for p in sorted(glob.glob(os.path.join(here, kind, "*.diff"))):
             if sel and not any(s in p for s in sel):
